@@ -191,15 +191,16 @@ def roundtrip(records, channel):
 def run_case(case):
     h = jhash(case)
     try:
-        records = [recs.build_record(r) for r in case["records"]]
+        specs = streamspace.expand(case)
+        records = [recs.build_record(r) for r in specs]
     except Exception as e:  # noqa: BLE001  constructor rejected the value: outside C01's space (that is C05)
         return {"ev": 1, "h": h, "nt": False, "out": "rejected:" + type(e).__name__}
     # every record must (still) report the descriptor its literal asked for once all records of the case exist
-    for spec, r in zip(case["records"], records):
+    for spec, r in zip(specs, records):
         if "name" in spec and (r._desc.name != spec["name"] or [list(t) for t in r._desc.get_field_tuples()] != [list(f) for f in spec["fields"]]):
             return {"ev": 1, "h": h, "nt": True, "out": "descriptor-identity",
                     "viol": [("C01:record-reports-another-descriptor", case, {"asked": spec["name"], "reports": r._desc.name})]}
-    XFAIL[0] = tuple(i for i, r in enumerate(case["records"]) if r.get("xfail"))
+    XFAIL[0] = tuple(i for i, r in enumerate(specs) if r.get("xfail"))
     expected = obs_list([r for i, r in enumerate(records) if i not in XFAIL[0]])
     viol = []
     outs = []
